@@ -8,10 +8,18 @@ op tokens (all `key=value`; strings hex-encoded with an `x` prefix, lists comma-
        vm=<err.Error()> vi=<0|1 info non-nil> gs=<granted scopes> ex=<z | ns after the request started>
        op=<n nil options | s> rm=<url> rs=<required scopes> am=<0|1> sk=<skew ns>
        now=<ns after the request started at which the verifier returns>`   (further tokens are ignored)
+  optional: `nl=<n>` stacked middlewares, outermost first; the keys above describe the outermost, the same
+       keys with suffix `.k` (k = 1..n-1) the k-th behind it (`now.k` = ns after the request started at which
+       that verifier returns); `up=1 ugs=<scopes> uex=<z|ns>`: the incoming request context already carries
+       a TokenInfo (tag `up`); `tr=<rec|wire>` how the response was observed (ignored here)
 observation:
-  `st=<status> ran=<0|1> info=<same|changed|other|nil|-> vc=<verifier calls> vt=<token of the last call | ->
-   www=<WWW-Authenticate values | -> body=<response body>`
-The inner handler of the harness answers 299 with body "inner".
+  `st=<status> ran=<0|1 final handler> info=<per middleware: what the handler directly behind it found in the
+   context: L<j> (the unchanged info of middleware j's verifier) | up | nil | other | changed<j> | - (not run)>
+   vc=<per middleware: verifier calls> vt=<per middleware: token of the last call | ->
+   www=<WWW-Authenticate values of the response AS SENT | -> late=<values in the writer's header map afterwards
+   that were not sent | -> body=<response body>`
+The final handler of the harness answers 299 with body "inner"; between two middlewares sits a probe
+that only records what it finds in the request context.
 
 The model line is `Bearer.serve` rendered; the monitor is the property itself, written with literal
 statuses and names, independent of the regenerated constants and of `Bearer.verify`.
@@ -33,34 +41,59 @@ def xs (s : String) : String := "x" ++ stringToHex s
 def xsList (l : List String) : String := if l.isEmpty then "-" else ",".intercalate (l.map xs)
 
 structure Req where
-  inp : Input String Unit
-  hasInfo : Bool
+  hdr : List Char
+  layers : List (Layer String String)   -- outermost first; a layer's info carries the tag `L<k>`
+  ctx : Ctx String String               -- the incoming request context (tag `up`)
 
-def parseReq (toks : List String) : Option Req := do
-  let h ← (← kv toks "h") |> unxList
-  let ve ← kv toks "ve"
-  let vm ← (← kv toks "vm") |> unx
-  let vi ← kv toks "vi"
-  let gs ← (← kv toks "gs") |> unxList
-  let ex ← kv toks "ex"
-  let op ← kv toks "op"
-  let rm ← (← kv toks "rm") |> unx
-  let rs ← (← kv toks "rs") |> unxList
-  let am ← kv toks "am"
-  let sk ← (← kv toks "sk").toInt?
-  let now ← (← kv toks "now").toInt?
+/-- One middleware: the keys `ve vm vi gs ex op rm rs am sk now`, with suffix `sfx` ("" for the
+outermost, ".k" for the k-th behind it).  `floor` is the instant the previous verifier returned. -/
+def parseLayer (toks : List String) (sfx tag : String) (floor : Int) : Option (Layer String String) := do
+  let ve ← kv toks ("ve" ++ sfx)
+  let vm ← (← kv toks ("vm" ++ sfx)) |> unx
+  let vi ← kv toks ("vi" ++ sfx)
+  let gs ← (← kv toks ("gs" ++ sfx)) |> unxList
+  let ex ← kv toks ("ex" ++ sfx)
+  let op ← kv toks ("op" ++ sfx)
+  let rm ← (← kv toks ("rm" ++ sfx)) |> unx
+  let rs ← (← kv toks ("rs" ++ sfx)) |> unxList
+  let am ← kv toks ("am" ++ sfx)
+  let sk ← (← kv toks ("sk" ++ sfx)).toInt?
+  let now ← (← kv toks ("now" ++ sfx)).toInt?
   let exp : Option Int ← if ex == "z" then some none else ex.toInt?.map some
   let err : Option VErr ←
     if ve == "-" then some none
     else if ve.length == 2 then
       some (some { isInvalid := ve.startsWith "1", isOAuth := ve.endsWith "1", msg := vm })
     else none
-  let info : Option (Info String Unit) := if vi == "1" then some { scopes := gs, exp := exp, extra := () } else none
+  let info : Option (Info String String) := if vi == "1" then some { scopes := gs, exp := exp, extra := tag } else none
   let opts : Option (Opts String) :=
     if op == "n" then none else some { rm := rm, scopes := rs, allowMissing := am == "1", skew := sk }
-  return { inp := { header := (h.headD "").toList, verifier := fun _ => { err := err, info := info },
-                    opts := opts, now := now },
-           hasInfo := vi == "1" }
+  -- the scripted verifier sleeps until `now` after the request started (not at all if that is past)
+  return { verifier := fun _ _ => { err := err, info := info }, opts := opts, now := max now floor }
+
+def parseLayers (toks : List String) : Nat → Nat → Int → Option (List (Layer String String))
+  | 0, _, _ => some []
+  | n + 1, k, floor => do
+    let l ← parseLayer toks (if k == 0 then "" else s!".{k}") s!"L{k}" floor
+    let rest ← parseLayers toks n (k + 1) l.now
+    return l :: rest
+
+def parseReq (toks : List String) : Option Req := do
+  let h ← (← kv toks "h") |> unxList
+  let nl ← match kv toks "nl" with
+    | none => some 1
+    | some v => v.toNat?
+  if nl == 0 ∨ nl > 8 then none
+  let layers ← parseLayers toks nl 0 0
+  let ctx : Ctx String String ←
+    match kv toks "up" with
+    | some "1" => do
+      let ugs ← (← kv toks "ugs") |> unxList
+      let uex ← kv toks "uex"
+      let exp : Option Int ← if uex == "z" then some none else uex.toInt?.map some
+      some [{ scopes := ugs, exp := exp, extra := "up" }]
+    | _ => some []
+  return { hdr := (h.headD "").toList, layers := layers, ctx := ctx }
 
 /-- `strconv.Quote` (what `%q` prints) for the strings the harness generates: ASCII, plus printable
 non-ASCII runes which pass unchanged. -/
@@ -81,17 +114,27 @@ def renderParam : Param String → String
 
 def renderChallenge (ps : List (Param String)) : String := "Bearer " ++ ", ".intercalate (ps.map renderParam)
 
+def csv (l : List String) : String := ",".intercalate l
+
 def modelObs (r : Req) : String :=
-  let vt := match (verify r.inp).2 with
-    | some t => s!"vc=1 vt={xs (String.ofList t)}"
-    | none => "vc=0 vt=-"
-  match serve r.inp with
-  | .next _ => s!"st=299 ran=1 info=same {vt} www=- body={xs "inner"}"
+  let vs := visits r.hdr r.layers r.ctx
+  let n := r.layers.length
+  let pad (l : List String) (d : String) : List String := l ++ List.replicate (n - l.length) d
+  let infos := pad (vs.map fun v => match v.resp with
+    | .next info => info.extra
+    | .error _ _ _ => "-") "-"
+  let vcs := pad (vs.map fun v => if v.token.isSome then "1" else "0") "0"
+  let vts := pad (vs.map fun v => match v.token with
+    | some t => xs (String.ofList t)
+    | none => "-") "-"
+  let mid := s!"info={csv infos} vc={csv vcs} vt={csv vts}"
+  match stack r.hdr r.layers r.ctx with
+  | .handler _ => s!"st=299 ran=1 {mid} www=- late=- body={xs "inner"}"
   | .error code msg ch =>
-    let www := match ch with
-      | some ps => xs (renderChallenge ps)
-      | none => "-"
-    s!"st={code} ran=0 info=- {vt} www={www} body={xs (msg ++ "\n")}"
+    -- the response as sent (`sentBy`), not the header map
+    match sentBy (rejectCalls code msg ch) with
+    | some sent => s!"st={sent.status} ran=0 {mid} www={xsList (sent.challenges.map renderChallenge)} late=- body={xs sent.body}"
+    | none => "nothing-written"
 
 /-! ### The property monitor -/
 
@@ -107,7 +150,7 @@ def specCredential (hdr : List Char) : Option (List Char) :=
 
 /-- The property's verdict: admitted iff everything checks out, otherwise the status of the first
 failing cause. -/
-def specWant (i : Input String Unit) : Want :=
+def specWant (i : Input String String) : Want :=
   match specCredential i.header with
   | none => .reject 401 "a missing or ill-formed credential"
   | some tok =>
@@ -134,54 +177,109 @@ def isInfix (p s : List Char) : Bool :=
   | [] => p.isEmpty
   | _ :: t => p.isPrefixOf s || isInfix p t
 
+/-- What the harness saw of one middleware: what the handler directly behind it found in the
+request context (`-`: that handler did not run), how often its verifier was called, with which token. -/
+structure LObs where
+  info : String
+  vc : String
+  vt : String
+
+/-- The challenge clause, on the `WWW-Authenticate` values of the response AS SENT (`www`); `late`
+are the values found in the writer's header map afterwards that were not sent. -/
+def challengeClause (opts : Option (Opts String)) (admitted : Bool) (st www late : String) : Option String :=
+  let wl := (unxList www).getD ["?"]
+  let ll := (unxList late).getD ["?"]
+  let expectParams : List String :=
+    if !admitted ∧ (st == "401" ∨ st == "403") then
+      match opts with
+      | none => []
+      | some op =>
+        (if op.rm ≠ "" then ["resource_metadata=" ++ goQuote op.rm] else []) ++
+        (if op.scopes ≠ [] then ["scope=" ++ goQuote (" ".intercalate op.scopes)] else [])
+    else []
+  match expectParams with
+  | [] =>
+    if !wl.isEmpty then
+      some s!"challenge_on_401_403: a WWW-Authenticate header although the status is {st}, the options are nil or nothing is configured"
+    else if !ll.isEmpty then
+      some s!"challenge_on_401_403: a WWW-Authenticate header put into the header map (after the response was written) although the status is {st}, the options are nil or nothing is configured"
+    else none
+  | ps =>
+    match wl with
+    | [w] =>
+      if !ll.isEmpty then some s!"challenge_on_401_403: a further WWW-Authenticate value was added to the header map after the {st} response had been written"
+      else if w.startsWith "Bearer " ∧ ps.all (fun p => isInfix p.toList w.toList) ∧
+         (opts.any (fun op => op.rm == "") → !isInfix "resource_metadata".toList w.toList) ∧
+         (opts.any (fun op => op.scopes.isEmpty) → !isInfix "scope=".toList w.toList) then none
+      else some "challenge_on_401_403: the challenge does not carry exactly the configured resource_metadata / scope parameters"
+    | [] =>
+      if ll.isEmpty then some s!"challenge_on_401_403: expected one WWW-Authenticate value on {st}, found 0"
+      else some s!"challenge_on_401_403: the {st} response as sent carries no WWW-Authenticate challenge: it was added to the header map only after the status line and headers had been written"
+    | _ => some s!"challenge_on_401_403: expected one WWW-Authenticate value on {st}, found {wl.length}"
+
+/-- The property, middleware by middleware (outermost first).  `k` is the index of the head of the
+list, `n` the number of stacked middlewares, `head` what `TokenInfoFromContext` yields on the
+request entering this middleware. -/
+def walk (n : Nat) (hdr : List Char) (st www late : String) :
+    Nat → List (Layer String String × LObs) → Ctx String String → Option String
+  | _, [], _ => none
+  | k, (l, o) :: rest, ctx =>
+    let at_ := if n ≤ 1 then "" else s!" [middleware {k + 1} of {n}, outermost first]"
+    let i := l.input hdr ctx
+    let called : Option String :=
+      match specCredential hdr with
+      | none => if o.vc == "0" then none else some s!"verifier_called_iff: verifier consulted without a well-formed credential{at_}"
+      | some tok =>
+        if o.vc == "1" ∧ o.vt == xs (String.ofList tok) then none
+        else some s!"verifier_called_iff: verifier not consulted exactly once with the credential's token{at_}"
+    match specWant i with
+    | .pass =>
+      let mine := s!"L{k}"
+      if o.info == "-" then
+        some s!"admit_iff: handler did not run (status {st}) although credential, verifier, scopes and expiry all check out{at_}"
+      else if o.info != mine then
+        let what :=
+          if o.info == "up" then "the TokenInfo that was already in the incoming request's context"
+          else if o.info == "nil" then "no TokenInfo"
+          else if o.info.startsWith "L" then s!"the TokenInfo of an enclosing middleware's verifier ({o.info})"
+          else if o.info.startsWith "changed" then "a TokenInfo whose contents were altered"
+          else s!"'{o.info}'"
+        some s!"handler_sees_verifier_info: the handler found {what} in the request context, not the token info its own middleware's verifier returned for this request unchanged{at_}"
+      else
+        let here : Option String :=
+          if rest.isEmpty then challengeClause l.opts true st www late else none
+        here <|> called <|>
+          (match (l.verifier ctx ((specCredential hdr).getD [])).info with
+           | some inf => walk n hdr st www late (k + 1) rest (inf :: ctx)
+           | none => none)
+    | .reject code cause =>
+      let verdict : Option String :=
+        if o.info != "-" then some s!"admit_iff: handler ran despite {cause}{at_}"
+        else if st == toString code then none
+        else some s!"status_by_cause: {cause} must be answered {code}, got {st}{at_}"
+      let behind : Option String :=
+        if rest.all (fun p => p.2.vc == "0" ∧ p.2.info == "-") then none
+        else some s!"admit_iff: a middleware behind the rejecting one was reached{at_}"
+      verdict <|> challengeClause l.opts false st www late <|> called <|> behind
+
+def splitObs (s : String) : List String := if s == "" then [] else s.splitOn ","
+
 def monitor (r : Req) (impl : String) : Option String :=
   let o := words impl
-  match kv o "st", kv o "ran", kv o "info", kv o "vc", kv o "vt", kv o "www" with
-  | some st, some ran, some info, some vc, some vt, some www =>
-    let i := r.inp
-    let want := specWant i
-    let verdict : Option String :=
-      match want, ran with
-      | .pass, "1" =>
-        if info == "same" then none
-        else some s!"handler_sees_verifier_info: the handler found '{info}' in the request context, not the verifier's token info unchanged"
-      | .pass, _ =>
-        some s!"admit_iff: handler did not run (status {st}) although credential, verifier, scopes and expiry all check out"
-      | .reject _ cause, "1" => some s!"admit_iff: handler ran despite {cause}"
-      | .reject code cause, _ =>
-        if st == toString code then none
-        else some s!"status_by_cause: {cause} must be answered {code}, got {st}"
-    let challenge : Option String :=
-      let wl := (unxList www).getD ["?"]
-      let expectParams : Option (List String) :=
-        if st == "401" ∨ st == "403" then
-          match i.opts with
-          | none => some []
-          | some op =>
-            some ((if op.rm ≠ "" then ["resource_metadata=" ++ goQuote op.rm] else []) ++
-                  (if op.scopes ≠ [] then ["scope=" ++ goQuote (" ".intercalate op.scopes)] else []))
-        else if ran == "1" then none else some []
-      match expectParams with
-      | none => none
-      | some [] =>
-        if wl.isEmpty then none
-        else some s!"challenge_on_401_403: a WWW-Authenticate header although the status is {st}, the options are nil or nothing is configured"
-      | some ps =>
-        match wl with
-        | [w] =>
-          if w.startsWith "Bearer " ∧ ps.all (fun p => isInfix p.toList w.toList) ∧
-             (i.opts.any (fun op => op.rm == "") → !isInfix "resource_metadata".toList w.toList) ∧
-             (i.opts.any (fun op => op.scopes.isEmpty) → !isInfix "scope=".toList w.toList) then none
-          else some "challenge_on_401_403: the challenge does not carry exactly the configured resource_metadata / scope parameters"
-        | _ => some s!"challenge_on_401_403: expected one WWW-Authenticate value on {st}, found {wl.length}"
-    let called : Option String :=
-      match specCredential i.header with
-      | none => if vc == "0" then none else some "verifier_called_iff: verifier consulted without a well-formed credential"
-      | some tok =>
-        if vc == "1" ∧ vt == xs (String.ofList tok) then none
-        else some "verifier_called_iff: verifier not consulted exactly once with the credential's token"
-    verdict <|> challenge <|> called
-  | _, _, _, _, _, _ => some s!"bad-observation: {impl}"
+  match kv o "st", kv o "ran", kv o "info", kv o "vc", kv o "vt", kv o "www", kv o "late" with
+  | some st, some ran, some info, some vc, some vt, some www, some late =>
+    let infos := splitObs info
+    let vcs := splitObs vc
+    let vts := splitObs vt
+    let n := r.layers.length
+    if infos.length ≠ n ∨ vcs.length ≠ n ∨ vts.length ≠ n then some s!"bad-observation: {impl}"
+    else
+      let obs : List LObs := (infos.zip (vcs.zip vts)).map fun (a, b, c) => { info := a, vc := b, vt := c }
+      let lastRan := (infos.getLast?.getD "-") != "-"
+      if (ran == "1") != lastRan ∨ (ran != "0" ∧ ran != "1") then
+        some s!"admit_iff: the final handler ran {ran} time(s), inconsistent with what it recorded"
+      else walk n r.hdr st www late 0 (r.layers.zip obs) r.ctx
+  | _, _, _, _, _, _, _ => some s!"bad-observation: {impl}"
 
 def engine : Engine Unit where
   init := ()
